@@ -792,7 +792,7 @@ func recoverAndCheck(l *loaded, ic imgCase, dir string) (ps []ledger.Problem, br
 		err := st.WaitForIndexingUpto(ictx, n)
 		icancel()
 		if err != nil {
-			add("R5/indexing-does-not-catch-up", "WaitForIndexingUpto(%d): %v", n, err)
+			add("R5/indexing-does-not-catch-up"+capLog.indexError(), "WaitForIndexingUpto(%d): %v", n, err)
 		} else {
 			type ver struct {
 				tx    uint64
@@ -1258,4 +1258,17 @@ func (c *capLogger) tail() string {
 		out += fmt.Sprintf("; store log: %q x%d", m, n)
 	}
 	return out
+}
+
+// indexError: "/indexer-keeps-failing:<error>" when the store logged that its indexer failed, "" otherwise.
+func (c *capLogger) indexError() string {
+	c.mu.Lock()
+	defer c.mu.Unlock()
+	for m := range c.errs {
+		if i := strings.Index(m, "due to error: "); i >= 0 && strings.Contains(m, "indexing failed") {
+			e := strings.TrimSpace(m[i+len("due to error: "):])
+			return "/indexer-keeps-failing:" + strings.ReplaceAll(strings.ReplaceAll(e, " ", "-"), ":", "")
+		}
+	}
+	return ""
 }
